@@ -143,7 +143,7 @@ def cond_polarity_fix(machine, env):
     return env
 
 
-def gen_case(rng, malformed=False, hist_len=None, may=False):
+def gen_case(rng, malformed=False, hist_len=None, may=False, p_unknown=0.1):
     g = Gen(rng, malformed=malformed)
     m = g.machine()
     env = cond_polarity_fix(m, g.env())
@@ -152,7 +152,7 @@ def gen_case(rng, malformed=False, hist_len=None, may=False):
     n = hist_len or rng.randint(1, 8)
     hist = []
     for i in range(n):
-        e = rng.randrange(ne) if rng.random() < 0.9 else ne + 3      # unknown event now and then
+        e = rng.randrange(ne) if rng.random() >= p_unknown else ne + 3      # unknown event now and then
         k = rng.choice([0, 0, 2]) if not may else rng.choice([0, 1, 1])
         hist.append((k, e, 100 + i))
     return dict(machine=m, env=env, model=0, init=rng.randrange(ns), history=hist, cls='Machine')
@@ -322,12 +322,31 @@ def state_int(model, attr='state'):
         return 999
 
 
+SYNC_CLASSES = ['Machine', 'LockedMachine', 'HierarchicalMachine', 'LockedHierarchicalMachine',
+                'GraphMachine', 'LockedGraphMachine', 'HierarchicalGraphMachine', 'LockedHierarchicalGraphMachine']
+ASYNC_CLASSES = ['AsyncMachine', 'HierarchicalAsyncMachine', 'AsyncGraphMachine', 'HierarchicalAsyncGraphMachine']
+
+
+def get_class(name):
+    _import_transitions()
+    import transitions.extensions as ext
+    import transitions
+    if name == 'Machine':
+        return transitions.Machine
+    return getattr(ext, name)
+
+
+def class_kwargs(name):
+    return dict(graph_engine='mermaid') if 'Graph' in name else {}
+
+
 def impl_flat(case):
     """observation of the real library on a flat case: per call [items, result, state]"""
     world = World(case['env'], case['machine']['send'])
     world.state_of = state_int
     world.perform = lambda a: None
-    machine, model = build_machine(case, world)
+    cname = case.get('cls', 'Machine')
+    machine, model = build_machine(case, world, cls=get_class(cname), extra_kwargs=class_kwargs(cname))
     world.model_ids[id(model)] = case.get('model', 0)
     world.current_model = model
     out = []
